@@ -9,7 +9,7 @@ import (
 // Skeleton programs for dependency / fork shapes that the purely random
 // generator reaches rarely.  Types and literal values are still random.
 
-const NTemplates = 19
+const NTemplates = 20
 
 // NFileTemplates file-passing skeletons follow the NTemplates dataflow ones.
 const NFileTemplates = 11
@@ -568,6 +568,28 @@ func Template(kind int, seed int64, cfg *Config) *Program {
 			top.Ret = append(top.Ret, Binding{Id: "mm", Exp: ref("SUBP", "m")})
 		}
 		p.Pipelines = []*Pipeline{sub, top}
+	case 19:
+		// member projections through multi-dimensional arrays and typed maps of
+		// arrays of structs coming from a stage: grid.a is int[][], cube.b is
+		// string[][][], mg.a is map<int[]>
+		p.Structs = append(p.Structs, &Struct{Name: "CELL", Fields: []Param{{Name: "a", Type: TInt}, {Name: "b", Type: TString}}})
+		cell := &Type{Kind: KStruct, Name: "CELL"}
+		mkg := src(&Stage{Name: "MKGRID", Ins: []Param{{Name: "seed", Type: TInt}},
+			Outs: []Param{{Name: "grid", Type: ArrayOf(ArrayOf(cell))}, {Name: "cube", Type: ArrayOf(ArrayOf(ArrayOf(cell)))}, {Name: "mg", Type: TMapOf(ArrayOf(cell))}, {Name: "row", Type: ArrayOf(cell)}}})
+		see := src(&Stage{Name: "SEEG", Ins: []Param{{Name: "xas", Type: ArrayOf(ArrayOf(TInt))}, {Name: "bs", Type: ArrayOf(ArrayOf(ArrayOf(TString)))}, {Name: "ms", Type: TMapOf(ArrayOf(TInt))}, {Name: "rs", Type: ArrayOf(TString)}},
+			Outs: []Param{{Name: "n", Type: TInt}}})
+		p.Stages = []*Stage{mkg, see}
+		inner := &Pipeline{Name: "INNERG", Ins: []Param{{Name: "g", Type: ArrayOf(ArrayOf(cell))}}, Outs: []Param{{Name: "xas", Type: ArrayOf(ArrayOf(TInt))}},
+			Calls: []*Call{{Callee: "SEEG", Alias: "SEE_IN", Binds: []Binding{{Id: "xas", Exp: self("g", "a")}, {Id: "bs", Exp: &Exp{Kind: ENull}}, {Id: "ms", Exp: &Exp{Kind: ENull}}, {Id: "rs", Exp: &Exp{Kind: ENull}}}}},
+			Ret:   []Binding{{Id: "xas", Exp: self("g", "a")}}}
+		top := &Pipeline{Name: "TOP", Outs: []Param{{Name: "xas", Type: ArrayOf(ArrayOf(TInt))}, {Name: "bs", Type: ArrayOf(ArrayOf(ArrayOf(TString)))}, {Name: "ms", Type: TMapOf(ArrayOf(TInt))}, {Name: "ias", Type: ArrayOf(ArrayOf(TInt))}},
+			Calls: []*Call{
+				{Callee: "MKGRID", Binds: []Binding{{Id: "seed", Exp: lit(s1)}}},
+				{Callee: "SEEG", Binds: []Binding{{Id: "xas", Exp: ref("MKGRID", "grid", "a")}, {Id: "bs", Exp: ref("MKGRID", "cube", "b")}, {Id: "ms", Exp: ref("MKGRID", "mg", "a")}, {Id: "rs", Exp: ref("MKGRID", "row", "b")}}},
+				{Callee: "INNERG", Binds: []Binding{{Id: "g", Exp: ref("MKGRID", "grid")}}},
+			},
+			Ret: []Binding{{Id: "xas", Exp: ref("MKGRID", "grid", "a")}, {Id: "bs", Exp: ref("MKGRID", "cube", "b")}, {Id: "ms", Exp: ref("MKGRID", "mg", "a")}, {Id: "ias", Exp: ref("INNERG", "xas")}}}
+		p.Pipelines = []*Pipeline{inner, top}
 	default:
 		fk := kind - NTemplates // file-passing skeleton number
 		// file-passing skeletons: a stage mapped over a run-time sized
